@@ -214,7 +214,9 @@ def run_check(prop, module, repo, tier, evidence_dir=None, replay_dir=None, quie
     try:
         ctx = Ctx(prop, repo, tier)
         module.check(ctx)
-        if hasattr(module, 'MINIMUM'):
+        if hasattr(module, 'MINIMUM') and not ctx.findings:
+            # vacuity guard: a rule that matched fewer sites than confirmed by
+            # hand must not pass silently (skipped when findings are reported)
             for rule, mn in module.MINIMUM.items():
                 ctx.expect(rule, mn)
         known = load_known()
